@@ -66,7 +66,7 @@ def run_group(pid, g, tier, seed, known, rep_dir):
             kf = match_known(known, fn, v)
             rp = os.path.join(rep_dir, '%s.%s.json' % (fn, hashlib.sha1(v['label'].encode()).hexdigest()[:8]))
             conf = None
-            try: conf = RP.replay(g.file, g.setup + [fn], model, seed=seed, omp=g.omp, timeout=(20 if v['label'] == 'monitor:hang' else 120))
+            try: conf = RP.replay(g.file, g.setup + [fn], model, seed=seed, omp=g.omp, timeout=(20 if v['label'].startswith('monitor:hang') else 120))
             except SystemExit: conf = {'error': 'native build failed'}
             except BaseException as ex: conf = {'error': str(ex)[:500]}
             reproduced = False
